@@ -21,7 +21,9 @@ RULE = ('(a) vsched harness (see C17): 2-6 threads on one shared memory (min 1, 
         'acquisition by the other, or a failing grow; distinct by (programs, decision string). Large memories: a shared memory '
         'with a maximum of 9000-33000 pages is grown from 1 page to its maximum in generated steps (1-16383 pages) by 1-3 threads '
         'while 1-3 others store / load / fill in the first page and in the newest page memory.size reports (real threads; ThreadSanitizer, AddressSanitizer and optimised '
-        'builds): no report, every store read back, grow results form one chain, final size = 1 + successful deltas.')
+        'builds): no report, every store read back, grow results form one chain, final size = 1 + successful deltas. Thread creation '
+        'faults: threads started through wasi thread-spawn with every n-th pthread_create failing - the shared memory descriptor '
+        'stays as it was (ASan / TSan builds).')
 ASSUME = ['linearization point = acquisition of the memory mutex, the mechanism the property names', 'schedules are sampled']
 
 
@@ -295,9 +297,36 @@ def big_task(wid, seed, params):
     return res
 
 
+def spawnfail_task(wid, seed, params):
+    """threads started through wasi thread-spawn (the harness of C15) on a module that DEFINES its shared memory, with every n-th
+    thread creation failing: a spawn that fails leaves the shared memory descriptor alone - page count and data as before, no
+    sanitizer report from the threads that keep using it"""
+    from . import c15
+    res = {'evaluations': 0, 'nontrivial': set(), 'classes': collections.Counter(), 'samples': [], 'violations': [],
+           'infra': [], 'extra': {}}
+    for ci in range(params['ncases']):
+        ch = Chooser(seed * 1000003 + ci)
+        case = {'kind': 'spawn', 'T': ch.pick((1, 2, 4)), 'K': ch.pick((2, 4, 8)), 'export': True, 'tsan': bool(ci % 2), 'imported': ch.below(4) == 0,
+                'depth': 0, 'decoys': 0, 'fail_every': ch.pick((2, 3, 5))}
+        try:
+            bad = c15.run_spawn(case)
+        except cexec.InfraError as e:
+            res['infra'].append(str(e))
+            break
+        res['evaluations'] += case['T'] * case['K']
+        res['classes']['thread_spawn_with_failing_thread_creation'] += 1
+        res['nontrivial'].add(f1.hx(repr(case)))
+        if bad and not res['violations']:
+            res['violations'].append({'signature': 'c18:spawnfail:' + bad[0], 'summary': 'thread-spawn with failing thread creation on a shared memory: ' + bad[1][:900],
+                                      'replay': {'kind': 'spawnfail', 'case': case, 'message': bad[1][:2500]}})
+    return res
+
+
 def task(wid, seed, params):
     res = {'evaluations': 0, 'nontrivial': set(), 'classes': collections.Counter(), 'samples': [], 'violations': [],
            'infra': [], 'extra': {}}
+    if params.get('spawnfail'):
+        return spawnfail_task(wid, seed, params)
     if params.get('big'):
         return big_task(wid, seed, params)
     if params.get('tsan'):
@@ -358,6 +387,12 @@ def task(wid, seed, params):
 
 
 def replay(rp):
+    if rp.get('kind') == 'spawnfail':
+        from . import c15
+        for _ in range(3):
+            if c15.run_spawn(rp['case']):
+                return True
+        return False
     if rp.get('kind') == 'big':
         for _ in range(3):
             if run_big(rp['case']):
@@ -374,8 +409,8 @@ def replay(rp):
 
 def plan(tier, seed):
     if tier == 'quick':
-        return [{'ncases': 60, 'schedules': 12, 'maxops': 5} for _ in range(30)] + [{'tsan': True, 'ncases': 6} for _ in range(2)] + [{'big': True, 'ncases': 3, 'builds': ['clang-tsan', 'clang-asan', 'gcc-O2']} for _ in range(3)]
-    return [{'ncases': 1200, 'schedules': 25, 'maxops': 7} for _ in range(60)] + [{'tsan': True, 'ncases': 60} for _ in range(4)] + [{'big': True, 'ncases': 40, 'builds': ['clang-tsan', 'clang-asan', 'gcc-O2']} for _ in range(6)]
+        return [{'ncases': 60, 'schedules': 12, 'maxops': 5} for _ in range(30)] + [{'tsan': True, 'ncases': 6} for _ in range(2)] + [{'big': True, 'ncases': 3, 'builds': ['clang-tsan', 'clang-asan', 'gcc-O2']} for _ in range(3)] + [{'spawnfail': True, 'ncases': 6}]
+    return [{'ncases': 1200, 'schedules': 25, 'maxops': 7} for _ in range(60)] + [{'tsan': True, 'ncases': 60} for _ in range(4)] + [{'big': True, 'ncases': 40, 'builds': ['clang-tsan', 'clang-asan', 'gcc-O2']} for _ in range(6)] + [{'spawnfail': True, 'ncases': 60} for _ in range(2)]
 
 
 def run(tier, seed):
